@@ -1,0 +1,52 @@
+//go:build verif
+
+package mux
+
+import "sync/atomic"
+
+// Observation point for the verification harness (/verif). Compiled only with
+// -tags verif. verifScanPoint is called by pathMatch, i.e. once for every route
+// that the longest-match scan of Router.Match visits, on the goroutine that
+// scans and before the route's regexp is evaluated. The harness installs a
+// function that records the visit, probes the router's lock and may park the
+// scanning goroutine there while another goroutine calls Handle / HandleRemove
+// / DefaultHandle.
+
+var verifScanFn atomic.Pointer[func(pattern, path string)]
+
+// VerifSetScanHook installs (or, with nil, removes) the callback.
+func VerifSetScanHook(f func(pattern, path string)) {
+	if f == nil {
+		verifScanFn.Store(nil)
+		return
+	}
+	verifScanFn.Store(&f)
+}
+
+func verifScanPoint(pattern, path string) {
+	if f := verifScanFn.Load(); f != nil {
+		(*f)(pattern, path)
+	}
+}
+
+// VerifLockFree reports whether the router's lock is held by nobody at this
+// moment (neither for reading nor for writing): it try-locks for writing and
+// unlocks again. It never blocks and leaves the lock as it found it.
+func (r *Router) VerifLockFree() bool {
+	if r.m.TryLock() {
+		r.m.Unlock()
+		return true
+	}
+	return false
+}
+
+// VerifWriterPending reports whether a goroutine holds the router's lock for
+// writing or waits for it (sync.RWMutex refuses new readers from the moment a
+// writer has announced itself). It never blocks and leaves the lock as it found it.
+func (r *Router) VerifWriterPending() bool {
+	if r.m.TryRLock() {
+		r.m.RUnlock()
+		return false
+	}
+	return true
+}
